@@ -257,5 +257,132 @@ impl SpMat {
     //@+ post
     //@| assert forall|i: int, j: int| 0 <= i < self.sh@.0 && 0 <= j < self.sh@.1 implies #[trigger] __ret.at(i, q.m@[j] as int) == self.at(i, j) by { assert(id.m@[i] == i); assert(__ret.at(id.m@[i] as int, q.m@[j] as int) == self.at(i, j)); }
 }
+
+// ================================================================ SpVec (yui-matrix/src/sparse/sp_vec.rs)
+//@source yui-matrix/src/sparse/sp_vec.rs
+/// a stored entry of a sparse vector: (index, value)
+pub type Tw = (usize, int);
+pub open spec fn vhas(es: Seq<Tw>, i: int) -> bool { exists|t: int| 0 <= t < es.len() && (#[trigger] es[t]).0 == i }
+pub open spec fn vpos(es: Seq<Tw>, i: int) -> int { choose|t: int| 0 <= t < es.len() && (#[trigger] es[t]).0 == i }
+pub open spec fn vval(es: Seq<Tw>, i: int) -> int { if vhas(es, i) { es[vpos(es, i)].1 } else { r0() } }
+pub open spec fn vdistinct(es: Seq<Tw>) -> bool { forall|s: int, t: int| 0 <= s < t < es.len() ==> #[trigger] es[s].0 != #[trigger] es[t].0 }
+pub open spec fn vinside(es: Seq<Tw>, n: int) -> bool { forall|t: int| 0 <= t < es.len() ==> (#[trigger] es[t]).0 < n }
+pub proof fn lemma_vval(es: Seq<Tw>, t: int)
+    requires vdistinct(es), 0 <= t < es.len()
+    ensures vhas(es, es[t].0 as int), vval(es, es[t].0 as int) == es[t].1
+{
+    let i = es[t].0 as int;
+    assert(vhas(es, i));
+    let p = vpos(es, i);
+    if p < t { assert(es[p].0 != es[t].0); } else if t < p { assert(es[t].0 != es[p].0); }
+}
+pub struct SpVec { pub n: Ghost<usize>, pub es: Ghost<Seq<Tw>> }
+pub struct WIter<'a> { pub es: Ghost<Seq<Tw>>, pub pos: Ghost<int>, pub w: Option<&'a ER> }
+impl<'a> WIter<'a> {
+    pub fn into_iter(self) -> (r: Self) ensures r == self { self }
+    #[verifier::external_body] pub fn next(&mut self) -> (r: Option<(usize, &'a ER)>)
+        requires 0 <= old(self).pos@ <= old(self).es@.len()
+        ensures final(self).es@ == old(self).es@,
+            old(self).pos@ < old(self).es@.len() ==> (final(self).pos@ == old(self).pos@ + 1 && r.is_some() && r.unwrap().0 == old(self).es@[old(self).pos@].0 && r.unwrap().1.v() == old(self).es@[old(self).pos@].1),
+            old(self).pos@ >= old(self).es@.len() ==> (final(self).pos@ == old(self).pos@ && r.is_none()),
+    { unimplemented!() }
+}
+/// entries collected in a Vec<(usize, R)>, by their (index, value) view
+pub open spec fn tw(v: Seq<(usize, ER)>) -> Seq<Tw> { v.map(|i: int, x: (usize, ER)| (x.0, x.1.v())) }
+/// first-half / second-half selection of SpVec::split after p stored entries
+pub open spec fn wsel(es: Seq<Tw>, p: int, k: int, hi: bool) -> Seq<Tw> decreases p {
+    if p <= 0 { Seq::empty() } else if (es[p - 1].0 >= k) == hi { wsel(es, p - 1, k, hi).push(((es[p - 1].0 - (if hi { k } else { 0 })) as usize, es[p - 1].1)) } else { wsel(es, p - 1, k, hi) }
+}
+pub open spec fn wsrc(es: Seq<Tw>, p: int, k: int, hi: bool, u: int) -> int decreases p {
+    if p <= 0 { -1 } else if ((es[p - 1].0 >= k) == hi) && u == wsel(es, p - 1, k, hi).len() { p - 1 } else { wsrc(es, p - 1, k, hi, u) }
+}
+pub proof fn lemma_wsrc(es: Seq<Tw>, p: int, k: int, hi: bool, u: int)
+    requires 0 <= p <= es.len(), 0 <= u < wsel(es, p, k, hi).len()
+    ensures 0 <= wsrc(es, p, k, hi, u) < p, (es[wsrc(es, p, k, hi, u)].0 >= k) == hi,
+        wsel(es, p, k, hi)[u] == (((es[wsrc(es, p, k, hi, u)].0 - (if hi { k } else { 0 })) as usize), es[wsrc(es, p, k, hi, u)].1),
+        forall|u2: int| u < u2 < wsel(es, p, k, hi).len() ==> wsrc(es, p, k, hi, u) < #[trigger] wsrc(es, p, k, hi, u2),
+    decreases p
+{
+    if p > 0 {
+        let b0 = wsel(es, p - 1, k, hi);
+        if (es[p - 1].0 >= k) == hi {
+            if u < b0.len() { lemma_wsrc(es, p - 1, k, hi, u); }
+            assert forall|u2: int| u < u2 < wsel(es, p, k, hi).len() implies wsrc(es, p, k, hi, u) < #[trigger] wsrc(es, p, k, hi, u2) by {
+                assert(wsel(es, p, k, hi).len() == b0.len() + 1);
+                if u2 < b0.len() { assert(wsrc(es, p, k, hi, u2) == wsrc(es, p - 1, k, hi, u2)); assert(wsrc(es, p - 1, k, hi, u) < wsrc(es, p - 1, k, hi, u2)); }
+                else { assert(wsrc(es, p, k, hi, u2) == p - 1); assert(wsrc(es, p, k, hi, u) == wsrc(es, p - 1, k, hi, u)); }
+            }
+        } else {
+            lemma_wsrc(es, p - 1, k, hi, u);
+            assert forall|u2: int| u < u2 < wsel(es, p, k, hi).len() implies wsrc(es, p, k, hi, u) < #[trigger] wsrc(es, p, k, hi, u2) by { assert(wsrc(es, p - 1, k, hi, u) < wsrc(es, p - 1, k, hi, u2)); }
+        }
+    }
+}
+pub proof fn lemma_widx(es: Seq<Tw>, p: int, k: int, hi: bool, t: int)
+    requires 0 <= t < p <= es.len(), (es[t].0 >= k) == hi
+    ensures 0 <= wsel(es, t, k, hi).len() < wsel(es, p, k, hi).len(), wsel(es, p, k, hi)[wsel(es, t, k, hi).len() as int] == (((es[t].0 - (if hi { k } else { 0 })) as usize), es[t].1)
+    decreases p
+{ if p - 1 == t { } else { lemma_widx(es, p - 1, k, hi, t); } }
+pub proof fn lemma_wsel_done(es: Seq<Tw>, k: int, hi: bool, n: int)
+    requires vdistinct(es), vinside(es, n), 0 <= k <= n
+    ensures ({ let x = wsel(es, es.len() as int, k, hi); let d = if hi { n - k } else { k }; let off = if hi { k } else { 0 };
+        vdistinct(x) && vinside(x, d) && forall|i: int| 0 <= i < d ==> #[trigger] vval(x, i) == vval(es, i + off) }),
+{
+    let p = es.len() as int; let x = wsel(es, p, k, hi); let d = if hi { n - k } else { k }; let off = if hi { k } else { 0 };
+    assert forall|u: int| 0 <= u < x.len() implies (#[trigger] x[u]).0 < d by { lemma_wsrc(es, p, k, hi, u); assert(es[wsrc(es, p, k, hi, u)].0 < n); }
+    assert forall|s1: int, t1: int| 0 <= s1 < t1 < x.len() implies #[trigger] x[s1].0 != #[trigger] x[t1].0 by {
+        lemma_wsrc(es, p, k, hi, s1); lemma_wsrc(es, p, k, hi, t1);
+        let (a, b) = (wsrc(es, p, k, hi, s1), wsrc(es, p, k, hi, t1)); assert(a < b); assert(es[a].0 != es[b].0);
+    }
+    assert forall|i: int| 0 <= i < d implies #[trigger] vval(x, i) == vval(es, i + off) by {
+        if vhas(x, i) { let u = vpos(x, i); lemma_wsrc(es, p, k, hi, u); lemma_vval(es, wsrc(es, p, k, hi, u)); }
+        else if vhas(es, i + off) {
+            let t = vpos(es, i + off); lemma_vval(es, t);
+            assert((es[t].0 >= k) == hi);
+            lemma_widx(es, p, k, hi, t);
+            let u = wsel(es, t, k, hi).len() as int; assert(x[u].0 == i); assert(vhas(x, i));
+        }
+    }
+}
+
+impl SpVec {
+    pub open spec fn wf(&self) -> bool { vdistinct(self.es@) && vinside(self.es@, self.n@ as int) }
+    pub open spec fn at(&self, i: int) -> int { vval(self.es@, i) }
+    #[verifier::external_body] pub fn dim(&self) -> (r: usize) ensures r == self.n@ { unimplemented!() }
+    #[verifier::external_body] pub fn iter(&self) -> (r: WIter<'_>) ensures r.es@ == self.es@, r.pos@ == 0 { unimplemented!() }
+    /// ASSUMED (SpMat::from_entries on an n x 1 matrix): for pairwise different indices inside the dimension, the vector with exactly those entries
+    #[verifier::external_body] pub fn from_entries(dim: usize, entries: Vec<(usize, ER)>) -> (r: SpVec)
+//@if B
+        requires vinside(tw(entries@), dim as int),
+//@endif
+        ensures vinside(tw(entries@), dim as int), r.n@ == dim, vdistinct(tw(entries@)) ==> r.es@ == tw(entries@) { unimplemented!() }
+
+    /// the two halves [0, at) and [at, n) of a sparse vector
+    pub fn split(&self, at: usize) -> (r: (SpVec, SpVec))
+        requires self.wf(),
+//@if B
+            at <= self.n@,
+//@endif
+        ensures at <= self.n@, r.0.wf(), r.1.wf(), r.0.n@ == at, r.1.n@ == (self.n@ - at) as usize,
+            forall|i: int| 0 <= i < at ==> #[trigger] r.0.at(i) == self.at(i), forall|i: int| 0 <= i < self.n@ - at ==> #[trigger] r.1.at(i) == self.at(i + at),
+    //@body impl/SpVec/split for_iter=1 loops=1 vec_elem=(usize,ER)
+    //@+ loop 0 header
+    //@| for (i, a) in self.iter()
+    //@+ pre-raw
+    //@| let ghost es0 = self.es@; let ghost n0 = self.n@ as int;
+    //@+ loop 0
+    //@| invariant self.wf(), es0 == self.es@, __it0.es@ == es0, 0 <= __it0.pos@ <= es0.len(), k <= n, n == self.n@,
+    //@|     tw(e1@) =~= wsel(es0, __it0.pos@, k as int, false), tw(e2@) =~= wsel(es0, __it0.pos@, k as int, true),
+    //@| ensures __it0.pos@ == es0.len(),
+    //@| decreases es0.len() - __it0.pos@,
+    //@+ loop 0 begin-raw
+    //@| let ghost a1 = e1@; let ghost a2 = e2@;
+    //@+ loop 0 begin
+    //@| assert(i == es0[__it0.pos@ - 1].0 && a.v() == es0[__it0.pos@ - 1].1 && i < n);
+    //@+ loop 0 end
+    //@| if i < k { assert(tw(e1@) =~= tw(a1).push((i, a.v()))); assert(e2@ == a2); } else { assert(tw(e2@) =~= tw(a2).push(((i - k) as usize, a.v()))); assert(e1@ == a1); }
+    //@+ post
+    //@| lemma_wsel_done(es0, k as int, false, n0); lemma_wsel_done(es0, k as int, true, n0);
+}
 } // verus!
 fn main() {}
